@@ -234,4 +234,154 @@ Proof.
   rewrite mbind_run. cbn [ret mbind node_of]. now rewrite Hn.
 Qed.
 
+(* ---------- a rejected assignment: refusal at admission time (append path) ---------- *)
+
+(* nodes below n0 are untouched, nothing is deallocated *)
+Definition same_under (n0 : nat) (s s' : store) : Prop :=
+  s_next s <= s_next s' /\ forall q, q < n0 -> getn s' q = getn s q.
+Lemma same_under_refl n0 s : same_under n0 s s.
+Proof. split; auto. Qed.
+Lemma same_under_trans n0 s1 s2 s3 : same_under n0 s1 s2 -> same_under n0 s2 s3 -> same_under n0 s1 s3.
+Proof. intros [A B] [C D]. split; [lia|]. intros q Hq. now rewrite D, B. Qed.
+
+(* an allocator only writes at and above the allocation pointer it started from *)
+Definition above {A} (f : option nat -> A -> M nat) : Prop :=
+  forall n0 par x s, n0 <= s_next s ->
+    exists s' i, f par x s = (s', Ok i) /\ same_under n0 s s' /\ s_next s <= i < s_next s'.
+
+Lemma above_alloc_sub lvl : above (alloc_sub t lvl).
+Proof.
+  intros n0 par x s Hn. unfold alloc_sub, alloc. eexists. eexists. split; [reflexivity|]. split; [|cbn; lia].
+  split; [cbn; lia|]. intros q Hq. unfold getn. cbn. unfold upd. destruct (Nat.eqb_spec q (s_next s)); [lia|reflexivity].
+Qed.
+
+Lemma alloc_kids_above {A} (f : option nat -> A -> M nat) root (l : list A) :
+  above f -> forall n0 s, n0 <= root -> n0 <= s_next s ->
+  exists s', alloc_kids f root l s = (s', Ok tt) /\ same_under n0 s s'.
+Proof.
+  intros Hf. induction l as [|x l IH]; intros n0 s Hr Hn; cbn [alloc_kids].
+  - eexists. split; [reflexivity|apply same_under_refl].
+  - rewrite mbind_run. destruct (Hf n0 (Some root) x s Hn) as (s1 & i & -> & S1 & Hi). rewrite mbind_run.
+    unfold do_append at 1, modify at 1.
+    set (s2 := setn s1 root _).
+    assert (S2 : same_under n0 s1 s2).
+    { split; [reflexivity|]. intros q Hq. unfold s2. rewrite getn_setn. destruct (Nat.eqb_spec q root); [lia|reflexivity]. }
+    destruct (IH n0 s2 Hr) as (s3 & -> & S3); [destruct S1; unfold s2; rewrite next_setn; lia|].
+    eexists. split; [reflexivity|]. eapply same_under_trans; [exact S1|]. eapply same_under_trans; eauto.
+Qed.
+
+Lemma alloc_tree_above {A} (f : option nat -> A -> M nat) n (l : list A) n0 s :
+  above f -> n0 <= s_next s ->
+  exists s' i, (let! i := alloc n in alloc_kids f i l ;; ret i)%heap s = (s', Ok i) /\ same_under n0 s s' /\ s_next s <= i < s_next s'.
+Proof.
+  intros Hf Hn. rewrite mbind_run. unfold alloc at 1.
+  set (s0 := mk_store (upd (s_heap s) (s_next s) n) (S (s_next s))). rewrite mbind_run.
+  assert (S0 : same_under n0 s s0).
+  { split; [cbn; lia|]. intros q Hq. unfold getn. cbn. unfold upd. destruct (Nat.eqb_spec q (s_next s)); [lia|reflexivity]. }
+  destruct (alloc_kids_above f (s_next s) l Hf n0 s0 Hn) as (s1 & -> & S1); [cbn; lia|].
+  eexists. eexists. split; [reflexivity|]. split; [eapply same_under_trans; eauto|].
+  destruct S1 as [N1 _]. cbn in N1. lia.
+Qed.
+Lemma above_alloc_comp lvl : above (alloc_comp t lvl).
+Proof. intros n0 par x s Hn. unfold alloc_comp. apply alloc_tree_above; auto. apply above_alloc_sub. Qed.
+Lemma above_alloc_field lvl : above (alloc_field t lvl).
+Proof. intros n0 par x s Hn. unfold alloc_field. apply alloc_tree_above; auto. apply above_alloc_comp. Qed.
+
+Lemma parse_child_ok p cn cr txt s s' c :
+  parse_child t e le p cn cr txt s = (s', Ok c) -> same_under (s_next s) s s' /\ s_next s <= c < s_next s'.
+Proof.
+  unfold parse_child. cbn [mbind node_of]. destruct (n_cls (getn s p)).
+  - cbn [mbind lift]. destruct (parse_field _ _ _ _ _ _ _ _) as [y|y]; [|discriminate]. cbn [mbind].
+    destruct (above_alloc_field (n_lvl (getn s p)) (s_next s) None y s (le_n _)) as (s1 & i & -> & A & B).
+    now intros [= <- <-].
+  - cbn [mbind lift]. destruct (ref_dt cr) as [d|y]; [|discriminate]. cbn [mbind lift].
+    destruct (parse_component _ _ _ _ _ _ _ _) as [y|y]; [|discriminate]. cbn [mbind].
+    destruct (above_alloc_comp (n_lvl (getn s p)) (s_next s) None y s (le_n _)) as (s1 & i & -> & A & B).
+    now intros [= <- <-].
+  - cbn [mbind lift]. destruct (ref_dt cr) as [d|y]; [|discriminate]. cbn [mbind lift].
+    destruct (mk_subcomponent _ _ _ _ _ _ _) as [y|y]; [|discriminate]. cbn [mbind].
+    destruct (above_alloc_sub (n_lvl (getn s p)) (s_next s) None y s (le_n _)) as (s1 & i & -> & A & B).
+    now intros [= <- <-].
+  - discriminate.
+Qed.
+
+(* a successful append does not touch the traversal parent of the element it appends to *)
+Lemma append_attached_tp p c s s' : append_attached p c s = (s', Ok tt) -> n_tparent (getn s' p) = n_tparent (getn s p).
+Proof.
+  unfold append_attached. cbn [mbind node_of lift].
+  destruct (admission_checks _ _) as [[]|y]; [|discriminate].
+  destruct (oid_eqb _ _).
+  - unfold do_append, modify. intros [= <-]. now rewrite getn_setn_same.
+  - destruct (oid_eqb _ _).
+    + unfold do_tappend, modify. intros [= <-]. now rewrite getn_setn_same.
+    + now intros [= <-].
+Qed.
+Lemma seg_counter_tp p c s s' : seg_counter p c s = (s', Ok tt) -> n_tparent (getn s' p) = n_tparent (getn s p).
+Proof.
+  unfold seg_counter. cbn [mbind node_of].
+  destruct (n_cls (getn s p)); try now intros [= <-].
+  destruct (n_name (getn s c)); try now intros [= <-].
+  destruct (_ && _ && _); try now intros [= <-].
+  destruct (py_int_ok _); [|discriminate].
+  destruct (N.ltb _ _); [|now intros [= <-]].
+  unfold set_last, modify. intros [= <-]. now rewrite getn_setn_same.
+Qed.
+Lemma add_inner_tp p c s s' : add_inner t p c s = (s', Ok tt) -> n_tparent (getn s' p) = n_tparent (getn s p).
+Proof.
+  unfold add_inner. cbn [mbind node_of lift].
+  destruct (class_checks t _ _) as [[]|y]; [|discriminate].
+  destruct (is_valid_child t _ _) as [[]|y]; cbn [negb mbind node_of lift]; try discriminate.
+  rewrite mbind_run. destruct (append_attached p c s) as [s1 [[]|y]] eqn:E1; [|discriminate].
+  intros H. apply seg_counter_tp in H. apply append_attached_tp in E1. congruence.
+Qed.
+Lemma append_tp p c s s' : append t p c s = (s', Ok tt) -> c <> p -> n_tparent (getn s' p) = n_tparent (getn s p).
+Proof.
+  unfold append. cbn [mbind node_of lift]. intros H Hc. revert H.
+  destruct (is_valid_child t _ _) as [[]|y]; cbn [negb mbind node_of lift]; try discriminate.
+  destruct (pointing _ _); cbn [negb].
+  - apply append_attached_tp.
+  - rewrite mbind_run. unfold point_to at 1, modify at 1. intros H. apply add_inner_tp in H.
+    rewrite H. now rewrite getn_setn_other by auto.
+Qed.
+
+(* C12 for an assignment that would APPEND (no child is addressed) to an element that is not itself
+   waiting under a traversal parent: whatever refuses it afterwards - wrong class, cardinality under
+   STRICT, level, version - every element allocated before the call is exactly as it was *)
+Theorem set_child_rejected_append x p name txt i s s' ex cn cr :
+  set_child t e le x p name (VText txt) i s = (s', Err ex) ->
+  ex <> PyValueError ->
+  p < s_next s ->
+  n_tparent (getn s p) = None ->
+  fcr t (getn s p) (upper name) = Ok (cn, cr) ->
+  (forall cn' cr', fcr t (getn s p) (upper cn) = Ok (cn', cr') -> finder (getn s p) (Some cn') i = None) ->
+  same_under (s_next s) s s' \/
+  exists c, s_next s <= c /\ exists s1, same_under (s_next s) s s1 /\ s' = pointed s1 c p.
+Proof.
+  intros H Nx Hp Ht Hf Hfind. revert H. unfold set_child. rewrite mbind_run. cbn [ret mbind node_of lift].
+  rewrite Hf. cbn [mbind]. rewrite mbind_run.
+  destruct (parse_child t e le p cn cr txt s) as [s1 [c|y]] eqn:Ep.
+  2:{ intros [= <- _]. left. rewrite (parse_child_err _ _ _ _ _ _ _ Ep). apply same_under_refl. }
+  destruct (parse_child_ok _ _ _ _ _ _ _ Ep) as [S1 Hc]. cbn [mbind node_of].
+  assert (Hp1 : getn s1 p = getn s p) by (apply S1; exact Hp).
+  destruct (opt_eqb (n_name (getn s1 c)) (Some cn)); cbn [negb]; [|intros [= <- _]; now left].
+  rewrite mbind_run. unfold child_at_index. cbn [mbind node_of lift]. rewrite Hp1.
+  destruct (fcr t (getn s p) (upper cn)) as [[cn' cr']|y] eqn:Ef2; [|intros [= <- _]; now left].
+  cbn [mbind]. specialize (Hfind cn' cr' eq_refl).
+  assert (Hold : exists r, (if streqb cn' cn then ret (finder (getn s p) (Some cn) i)
+                            else if negb x then raise OutOfFuel else ret (finder (getn s p) (Some cn') i)) s1 = (s1, r)
+                           /\ (r = Ok None \/ exists y, r = Err y)).
+  { destruct (streqb_spec cn' cn) as [->|].
+    - eexists. split; [reflexivity|]. left. now rewrite Hfind.
+    - destruct (negb x); eexists; (split; [reflexivity|]); [right; eauto|left; now rewrite Hfind]. }
+  destruct Hold as (r & -> & [->|[y ->]]); [|intros [= <- _]; now left].
+  rewrite mbind_run.
+  destruct (append t p c s1) as [s2 [[]|y]] eqn:Ea.
+  - (* attached: set_parent_to_traversal of an element without traversal parent cannot raise *)
+    assert (Ht2 : n_tparent (getn s2 p) = None).
+    { rewrite (append_tp _ _ _ _ Ea); [now rewrite Hp1|lia]. }
+    unfold FUEL. cbn [to_traversal mbind node_of]. rewrite Ht2. discriminate.
+  - intros [= <- <-]. destruct (append_err _ _ _ _ _ Ea Nx) as [->| ->]; [now left|].
+    right. exists c. split; [lia|]. exists s1. auto.
+Qed.
+
 End Atomic.
